@@ -141,7 +141,7 @@ def check_insertion(chk, tu):
                    % (got, [d['path'] for d in t[:3]], want), 'wasiInit')
 
 
-def closed_state(chk, tu):
+def closed_state(chk, tu, rule='R13.2'):
     """R13.2 - returns the CLOSED record(s) established by successful closes"""
     FD, DIR, PATH = unk('slot.fd', 'int'), unk('slot.dir'), unk('slot.path')
 
@@ -164,7 +164,7 @@ def closed_state(chk, tu):
         cond = p.cond_text()
         for fn, val, loc in released:
             still = [k for k, v in slot.items() if v == val]
-            chk.expect(not still, 'R13.2', 'released-%s-cleared[%s]' % (fn, cond[:60]),
+            chk.expect(not still, rule, 'released-%s-cleared[%s]' % (fn, cond[:60]),
                        'after a successful fd_close the table slot still holds the %s value that was handed to %s() (field %s): '
                        'a later call on this descriptor re-uses released host state (double close / use after free)'
                        % ('pointer' if fn != 'close' else 'descriptor', fn, ', '.join(still)),
@@ -188,7 +188,7 @@ NATIVE_PREFIX = 'extern:'
 HARMLESS = {'extern:malloc', 'extern:calloc', 'extern:free'}
 
 
-def check_inert(chk, tu, closed_records):
+def check_inert(chk, tu, closed_records, only=None, rule='R13.3', floor=80):
     eps = W.entry_points(tu)
     chk.require(len(eps) >= 40, 'only %d WASI imports found' % len(eps))
     n_checked = 0
@@ -200,6 +200,9 @@ def check_inert(chk, tu, closed_records):
         if key not in seen:
             seen.add(key)
             states.append(('closed', rec))
+            # the standard streams are ordinary table entries: closed, the numbers 0-2 are as dead as any other
+            states.append(('closed@0', rec))
+            states.append(('closed@2', rec))
     states.append(('never-issued', None))
     # descriptor numbers are 32-bit unsigned guest values: the top of the range must be rejected like any other number beyond
     # the table (a bound check done in a signed type lets them through as negative indices)
@@ -207,7 +210,7 @@ def check_inert(chk, tu, closed_records):
     states.append(('never-issued-msb', None))
     for imp, gens in sorted(eps.items()):
         pos = DESCRIPTOR_PARAMS.get(imp)
-        if pos is None:
+        if pos is None or (only is not None and imp not in only):
             continue
         for gen, f in sorted(gens.items()):
             fname = f['name']
@@ -224,10 +227,15 @@ def check_inert(chk, tu, closed_records):
                 for sname, rec in states:
                     def table():
                         t = std_table(1)
-                        if rec is not None:
+                        if rec is not None and '@' in sname:
+                            t[int(sname.split('@')[1])] = dict(rec)
+                        elif rec is not None:
                             t.append(dict(rec))
                         return t
-                    idx = 5 if rec is not None else {'never-issued': 9, 'never-issued-high': 0xFFFFFFFF, 'never-issued-msb': 0x80000000}[sname]
+                    if rec is not None:
+                        idx = int(sname.split('@')[1]) if '@' in sname else 5
+                    else:
+                        idx = {'never-issued': 9, 'never-issued-high': 0xFFFFFFFF, 'never-issued-msb': 0x80000000}[sname]
 
                     def mk(it, st):
                         args = [unk('instance')]
@@ -273,18 +281,18 @@ def check_inert(chk, tu, closed_records):
                                     natives.append(('%s uses released %r' % (name, a), loc))
                     n_checked += 1
                     if natives:
-                        chk.fail('R13.3', inst + ':no-native-use',
+                        chk.fail(rule, inst + ':no-native-use',
                                  '%s on a %s descriptor performs %s - a closed or never-issued descriptor must be rejected before '
                                  'any host state is touched' % (imp, sname, ', '.join(sorted({n for n, _ in natives}))[:300]),
                                  site + ':native-use', natives[0][1])
                     else:
-                        chk.ok('R13.3', inst + ':no-native-use')
-                    chk.expect(not bad_ret, 'R13.3', inst + ':returns-EBADF',
+                        chk.ok(rule, inst + ':no-native-use')
+                    chk.expect(not bad_ret, rule, inst + ':returns-EBADF',
                                '%s on a %s descriptor returns %s on some path, the specification requires EBADF (%d)'
                                % (imp, sname, ', '.join(bad_ret), BADF), site + ':errno')
     chk.extra['entry_point_runs'] = n_checked
     chk.note('unimplemented imports (unconditional ENOSYS, no descriptor access) not decided: %s' % ', '.join(skipped))
-    chk.require(n_checked >= 80, 'only %d entry-point/state combinations analysed' % n_checked)
+    chk.require(n_checked >= floor, 'only %d entry-point/state combinations analysed' % n_checked)
 
 
 def check_prestat(chk, tu):
